@@ -32,9 +32,12 @@ package annotations
 //@   pure
 //@   ensures r == lower(HTTPMethodToString(m))
 
+// the variables are the first capture group of every match of pathParamRegex, in match order, verbatim (what the
+// pattern matches is the regexp library's business: bounded stand-in `extractpathparams`)
 //@ func ExtractPathParams(path string) (r []string)
 //@   pure
-//@   assume-contract
+//@   ensures as_matched: len(r) == len(pathParamRegex.FindAllStringSubmatch(path, -1)) && (forall k int :: 0 <= k && k < len(r) ==> r[k] == pathParamRegex.FindAllStringSubmatch(path, -1)[k][1])
+//@   loop 1 invariant len(params) == _i1 && (forall k int :: 0 <= k && k < _i1 ==> params[k] == matches[k][1])
 
 //@ func GetMethodHTTPConfig(method *protogen.Method) (r *HTTPConfig)
 //@   pure
